@@ -27,6 +27,8 @@ import (
 //	    values, not by the code under test.
 //	D <case>
 //	    the k or r case <case>, executed with ast.EnableQueryDebug switched on: same output.
+//	c <letter>
+//	    the typed node class of operation atom <letter> and what its GetType() reports (c12_classes.go).
 //	x <hex text> <truth vectors>
 //	    a damaged spelling (whitespace removed where the grammar demands it, words split or
 //	    glued, parentheses dropped or doubled, reserved or keyword-like words as atoms, `not` +
@@ -334,6 +336,11 @@ func c12Exec(line string) string {
 		}
 		text, _ := c12Substitute(fromWire(f[1]))
 		return "text " + toWire(text)
+	case "c": // round 8: the typed class of an operation atom (c12_classes.go)
+		if len(f) != 2 || len(f[1]) != 1 {
+			return "bad-case"
+		}
+		return c12ExecClass(f[1][0])
 	case "k":
 		if len(f) != 3 {
 			return "bad-case"
@@ -768,6 +775,8 @@ func c12Gen(tier string, seed uint64, out *bufio.Writer) {
 	// 4c. negated atoms (c12_negatoms.go): every operation atom under `not` in every position, over
 	//     rows with NULL fields and empty sets; own random stream
 	c12GenNegAtoms(tier, seed, out)
+	// 4c'. the typed class of every operation atom (c12_classes.go)
+	c12GenClasses(out)
 	// 4e. large skeletons (c12_large.go): wide chains, wide nested trees, deep parentheses / nots,
 	//     right- and left-nested trees of hundreds of atoms
 	c12GenLarge(tier, seed, out)
